@@ -284,3 +284,9 @@ c.site_assert("method:update", "fresh(self)", "proxy-headers-merged-into-a-fresh
 c.tag("C09", "proxy-headers-merged-into-a-fresh-copy-only")
 c.tag("C01", "proxy-headers-merged-into-a-fresh-copy-only")
 c.props.update({"C09"})
+
+# C11: every recursion passes on the body position recorded by set_file_position for this attempt (so the next attempt rewinds)
+c.site_assert("HTTPConnectionPool.urlopen", "body_pos is caller_body_pos", "recorded-body-position-carried-through-every-recursion")
+c.tag("C11", "recorded-body-position-carried-through-every-recursion", "settings-carried-through-every-recursion")
+c.tag("C01", "recorded-body-position-carried-through-every-recursion")
+c.props.update({"C11"})
